@@ -21,11 +21,7 @@ def run(ctx):
     ds = prog.fn('del_start', 'qmail-send.c')
     asg = [x for x in ds.all_x() if x.k == 'asg' and (x.args[0].path() or '').endswith('.mpos')]
     r2.check(len(asg) == 1 and asg[0].args[1].path() == 'P:mpos', 'del_start-stores-its-mpos-argument', ds.unit + ':del_start', 'd[c][i].mpos must be assigned the mpos parameter unchanged')
-    # a new pass starts at position 0
-    pd = prog.fn('pass_dochan', 'qmail-send.c')
-    z = [x for x in pd.all_x() if x.k == 'asg' and x.op == '=' and (x.args[0].path() or '').endswith('.mpos') and x.args[1].const == 0]
-    dm = pd.calls('prioq_delmin')
-    r2.check(bool(z) and bool(dm) and pd.dominates(dm[0], z[0]), 'new-pass-starts-at-position-0', pd.unit + ':pass_dochan', 'pass[c].mpos = 0 when a new pass is opened')
+    attach(r2, ps, only={'pass:a-new-pass-marks-from-offset-0'})
     r2.expect_min(7)
 
     r3 = rep.rule('C04.3-concurrency-bound', 'R-GUARD', 'a delivery slot is taken only for an index below concurrency[c] found unused; used=1 and ++concurrencyused come together, used=0 and --concurrencyused come together; del_avail bounds the count; concurrency clamped to the spawner\'s byte')
